@@ -175,23 +175,313 @@ class TypeWalk:
         return out
 
 
+# --------------------------------------------------------------------------- precise backward slice
+# engine.Fn.slice follows *definitions* of locals only.  Two idioms that behaviour-preserving
+# refactorings introduce defeat it:
+#   * `let t = helper(a, b); let (x, flag) = t;`   — after inlining, the tuple travels through a plain
+#     move (`_33 = move _90; _32 = _33.1`), and the engine drops the `.1` at the move, so the flag
+#     appears to depend on everything in the tuple;
+#   * `let mut v = Vec::new(); for x in xs { v.push(f(x)); }`  instead of `xs.iter().map(f).collect()` —
+#     the content of `v` arrives through `&mut v` passed to a call, which is not a definition of `v`.
+# `pslice` is the engine's slice with (a) the residual projection carried through moves, references and
+# aggregate operands and (b) *mutations*: a call that receives a `&mut` borrow rooted at a sliced place
+# together with other arguments (push / insert / extend / clone_from ...), or a store through such a
+# borrow, is a definition of that place; its other arguments are followed.  The result is an
+# engine.Slice with one more attribute, `mut_blocks` (blocks of the mutating calls/stores).
+from .engine import Slice, _proj_compatible, _projkey
+
+ACC_OPAQUE = r"(Vec::<T>|VecDeque::<T>|String|IndexMap::<K, V>|IndexSet::<T>|HashMap::<K, V>|BTreeMap::<K, V>)::with_capacity(_and_hasher)?$"
+
+
+def _pe_eq(a, b):
+    if isinstance(a, dict) and isinstance(b, dict):
+        if "f" in a and "f" in b:
+            return a["f"] == b["f"]
+        if "dc" in a and "dc" in b:
+            return a["dc"] == b["dc"]
+    return a == b
+
+
+def _residual(q, proj):
+    """Write through projection q, read through proj: the part of proj below q (None: unrelated shape)."""
+    if len(q) <= len(proj) and all(_pe_eq(a, b) for a, b in zip(q, proj)):
+        return proj[len(q):]
+    return []
+
+
+_REBORROW_CALLS = re.compile(r"(ops::DerefMut::deref_mut|convert::AsMut::as_mut|Option::<T>::as_mut|borrow::BorrowMut::borrow_mut|Option::<T>::as_deref_mut|Pin::<Ptr>::as_mut|Pin::<&'a mut T>::get_mut)$")
+
+
+def mut_borrows(fn):
+    """local -> place it mutably borrows (through reborrows `&mut *r`, moves, deref_mut plumbing)."""
+    c = getattr(fn, "_c08_mutb", None)
+    if c is not None:
+        return c
+    out = {}
+    changed = True
+    rounds = 0
+    while changed and rounds < 8:
+        changed = False
+        rounds += 1
+        for bb, i, st in fn.stmts():
+            if st["pl"]["p"]:
+                continue
+            l = st["pl"]["l"]
+            if l in out:
+                continue
+            rv = st["rv"]
+            tgt = None
+            if rv["rv"] == "ref" and rv.get("mut"):
+                pl = rv["pl"]
+                if pl["p"] and pl["p"][0] == "*" and pl["l"] in out:
+                    base = out[pl["l"]]
+                    tgt = {"l": base["l"], "p": list(base["p"]) + list(pl["p"][1:])}
+                elif not (pl["p"] and pl["p"][0] == "*"):
+                    tgt = pl
+                elif fn.local_ty(pl["l"]).startswith("&") and pl["l"] not in fn.defs():
+                    tgt = pl      # reborrow of a `&mut` parameter: the place behind the parameter
+                elif 1 <= pl["l"] <= fn.argc:
+                    tgt = pl
+            elif rv["rv"] == "use":
+                sl = operand_local(rv["op"])
+                if sl is not None and sl in out:
+                    tgt = out[sl]
+            if tgt is not None:
+                out[l] = tgt
+                changed = True
+        for bb, t in fn.calls():
+            if t["dest"]["p"] or t["dest"]["l"] in out or not t["args"]:
+                continue
+            if _REBORROW_CALLS.search(t.get("callee") or ""):
+                sl = operand_local(t["args"][0])
+                if sl is not None and sl in out:
+                    out[t["dest"]["l"]] = out[sl]
+                    changed = True
+    fn._c08_mutb = out
+    return out
+
+
+def _mutators(fn):
+    """[(bb, kind, node, target place, value operands)] — calls taking a `&mut` borrow plus other arguments,
+    and stores through a `&mut` borrow."""
+    c = getattr(fn, "_c08_mutators", None)
+    if c is not None:
+        return c
+    mb = mut_borrows(fn)
+    out = []
+    for blk in fn.blocks:
+        if blk["cleanup"]:
+            continue
+        for st in blk["st"]:
+            if st["s"] == "assign" and st["pl"]["p"] and st["pl"]["p"][0] == "*" and st["pl"]["l"] in mb:
+                base = mb[st["pl"]["l"]]
+                out.append((blk["bb"], "store", st, {"l": base["l"], "p": list(base["p"]) + list(st["pl"]["p"][1:])}, _rv_operands(st["rv"])))
+        t = blk["term"]
+        if t["t"] != "call" or len(t["args"]) < 2:
+            continue
+        for k, a in enumerate(t["args"]):
+            l = operand_local(a)
+            if l is not None and l in mb:
+                out.append((blk["bb"], "call", t, mb[l], [x for j, x in enumerate(t["args"]) if j != k]))
+    fn._c08_mutators = out
+    return out
+
+
+def pslice(fn, operand, stop_at_calls=None, mutations=True, max_nodes=8000):
+    atoms, callees, seen, work = set(), [], set(), []
+    mut_blocks = set()
+    stop_rx = re.compile(stop_at_calls) if stop_at_calls else None
+    opaque_rx = re.compile(ACC_OPAQUE)
+    muts = _mutators(fn) if mutations else []
+    seen_calls = set()
+
+    def push_pl(pl):
+        work.append(json.dumps({"l": pl["l"], "p": pl["p"]}, sort_keys=True))
+
+    def push_op(op, res=()):
+        k = op.get("k")
+        if k in ("copy", "move"):
+            push_pl({"l": op["pl"]["l"], "p": list(op["pl"]["p"]) + list(res)})
+        elif k == "const":
+            if op.get("fn"):
+                atoms.add(("fnitem", op["fn"]))
+            elif op.get("path"):
+                atoms.add(("const", op["path"], json.dumps(op.get("val"))))
+            else:
+                atoms.add(("lit", json.dumps(op.get("val")), op["ty"]))
+
+    def call_def(bb, node, skip=None):
+        callee = node.get("callee") or "<indirect>"
+        if bb not in seen_calls:
+            seen_calls.add(bb)
+            callees.append((callee, bb, node))
+        atoms.add(("call", callee, bb))
+        if (stop_rx and stop_rx.search(callee)) or opaque_rx.search(callee):
+            return
+        for a in (node["args"] if skip is None else skip):
+            push_op(a)
+        if not node.get("callee") and node.get("callee_op"):
+            push_op(node["callee_op"])
+
+    if "k" in operand:
+        push_op(operand)
+    else:
+        push_pl(operand)
+    while work:
+        item = work.pop()
+        if item in seen:
+            continue
+        seen.add(item)
+        if len(seen) > max_nodes:
+            atoms.add(("budget",))
+            break
+        pl = json.loads(item)
+        l, proj = pl["l"], pl["p"]
+        if 1 <= l <= fn.argc:
+            atoms.add(("param", l, tuple(_projkey(proj))))
+        for e in proj:
+            if isinstance(e, dict) and "idx" in e:
+                push_pl({"l": e["idx"], "p": []})
+        for bb, kind, node in fn.defs().get(l, []):
+            if kind == "assign":
+                rv = node["rv"]
+                k = rv["rv"]
+                q = node["pl"]["p"]
+                if q and proj and not _proj_compatible(q, proj):
+                    continue
+                res = _residual(q, proj)
+                if k == "use":
+                    push_op(rv["op"], res)
+                elif k in ("cast", "repeat"):
+                    push_op(rv["op"])
+                elif k == "unop":
+                    atoms.add(("unop", rv["op"]))
+                    push_op(rv["a"])
+                elif k == "ref":
+                    if res and res[0] == "*":
+                        push_pl({"l": rv["pl"]["l"], "p": list(rv["pl"]["p"]) + list(res[1:])})
+                    else:
+                        push_pl(rv["pl"])
+                elif k == "copyderef":
+                    push_pl({"l": rv["pl"]["l"], "p": list(rv["pl"]["p"]) + list(res)})
+                elif k in ("discr", "rawptr"):
+                    push_pl(rv["pl"])
+                    if k == "discr":
+                        atoms.add(("discr",))
+                elif k == "binop":
+                    atoms.add(("binop", rv["op"]))
+                    push_op(rv["a"])
+                    push_op(rv["b"])
+                elif k == "agg":
+                    tag = rv.get("adt") or rv.get("def") or rv["agg"]
+                    fsel, rest = None, []
+                    for n, e in enumerate(res):
+                        if isinstance(e, dict) and "dc" in e:
+                            continue
+                        if isinstance(e, dict) and "f" in e:
+                            fsel, rest = e["f"], res[n + 1:]
+                        break
+                    if fsel is not None and fsel < len(rv["ops"]):
+                        push_op(rv["ops"][fsel], rest)
+                    else:
+                        atoms.add(("agg", tag, rv.get("variant")))
+                        for o in rv["ops"]:
+                            push_op(o)
+                else:
+                    atoms.add(("rv", k))
+            elif kind == "call":
+                call_def(bb, node)
+            elif kind == "yield":
+                atoms.add(("resume", bb))
+        for bb, kind, node, tgt, vals in muts:
+            if tgt["l"] != l:
+                continue
+            tp = tgt["p"]
+            if tp and proj and not _proj_compatible(tp, proj):
+                continue
+            mut_blocks.add(bb)
+            if kind == "call":
+                call_def(bb, node, skip=vals)
+            else:
+                for o in vals:
+                    push_op(o)
+    sl = Slice(fn, atoms, callees, seen)
+    sl.mut_blocks = mut_blocks
+    return sl
+
+
 # --------------------------------------------------------------------------- control dependence
-def controllers(fn, bb):
-    """Switch blocks that decide whether `bb` executes: bb is reachable from the switch, and from
-    at least one of its non-diverging successors bb is NOT reachable (diverging = panic arm)."""
+def _postdom(fn):
+    """Post-dominator sets (bitsets) over the non-cleanup CFG with panicking arms removed."""
+    c = getattr(fn, "_c08_pdom", None)
+    if c is not None:
+        return c
+    live = [b for b in sorted(fn.reachable(0)) if not fn.blocks[b]["cleanup"]]
+    div = set(b for b in live if fn.is_diverging(b))
+    nodes = [b for b in live if b not in div]
+    nodeset = set(nodes)
+    succ = {b: [s for s in fn.succ(b) if s in nodeset] for b in nodes}
+    full = 0
+    for b in nodes:
+        full |= 1 << b
+    pd = {b: (full if succ[b] else (1 << b)) for b in nodes}
+    changed = True
+    order = list(reversed(nodes))
+    while changed:
+        changed = False
+        for b in order:
+            if not succ[b]:
+                continue
+            acc = full
+            for s_ in succ[b]:
+                acc &= pd[s_]
+            acc |= 1 << b
+            if acc != pd[b]:
+                pd[b] = acc
+                changed = True
+    fn._c08_pdom = (pd, succ)
+    return fn._c08_pdom
+
+
+def direct_controllers(fn, bb):
+    """Switch blocks bb is directly control dependent on (Ferrante et al.): bb post-dominates one of the
+    switch's successors but not the switch itself.  Panicking arms do not count as alternatives."""
+    pd, succ = _postdom(fn)
+    if bb not in pd:
+        return []
+    bit = 1 << bb
     out = []
     for sb, t in fn.switches():
-        if sb == bb:
+        if sb == bb or sb not in pd:
             continue
-        succ = fn.succ(sb)
-        if len(succ) < 2:
+        ss = succ[sb]
+        if len(ss) < 2:
             continue
-        r = [(s, fn.reachable(s, avoid=[sb])) for s in succ]
-        if not any(bb in rs for s, rs in r):
-            continue
-        if any((bb not in rs) and not fn.is_diverging(s) for s, rs in r):
+        if pd[sb] & bit:
+            continue            # bb is executed whatever the switch decides
+        if any(pd[s_] & bit for s_ in ss):
             out.append(sb)
     return out
+
+
+def controllers(fn, bb):
+    """Switch blocks that decide whether `bb` executes (transitive control dependence; the exit test of a
+    loop that lies *before* bb does not decide it, the tests of enclosing loops and branches do)."""
+    c = getattr(fn, "_c08_ctrl", None)
+    if c is None:
+        c = fn._c08_ctrl = {}
+    if bb in c:
+        return c[bb]
+    seen, work, out = set(), [bb], []
+    while work:
+        x = work.pop()
+        for sb in direct_controllers(fn, x):
+            if sb not in seen and sb != bb:
+                seen.add(sb)
+                out.append(sb)
+                work.append(sb)
+    c[bb] = sorted(out)
+    return c[bb]
 
 
 # --------------------------------------------------------------------------- interprocedural origins
@@ -220,10 +510,12 @@ class Origins:
 
 
 class Flow:
-    def __init__(self, facts, entries=(), stop_calls=None, root_params=()):
+    def __init__(self, facts, entries=(), stop_calls=None, root_params=(), precise=False):
         """entries: function ids whose parameters are roots (not resolved at callers);
-        root_params: individual (function id, parameter index) roots."""
+        root_params: individual (function id, parameter index) roots;
+        precise: use `pslice` (projection-carrying, mutation-aware) instead of the engine's slice."""
         self.facts = facts
+        self.precise = precise
         self.tw = TypeWalk(facts)
         self.entries = set(entries)
         self.root_params = set(root_params)
@@ -232,16 +524,26 @@ class Flow:
         self._ctrl = {}
 
     # -- structure
+    def closure_sites(self, g):
+        """[(parent Fn, bb, aggregate stmt)] where closure g is built.  A closure defined inside a helper that
+        was inlined is built in every function the helper was inlined into (raw["inlined"])."""
+        pid = g.raw.get("parent")
+        cands = []
+        p = self.facts.F.get(pid)
+        if p is not None:
+            cands.append(p)
+        cands += [h for h in self.facts.F.values() if pid in h.raw.get("inlined", []) and h is not p]
+        out = []
+        for p in cands:
+            for bb, i, st in p.stmts():
+                rv = st["rv"]
+                if rv["rv"] == "agg" and rv.get("agg") in ("closure", "coroutine", "coroutine_closure") and rv.get("def") == g.raw["id"]:
+                    out.append((p, bb, st))
+        return out
+
     def closure_site(self, g):
-        """(parent Fn, bb, aggregate stmt) where closure g is built."""
-        p = self.facts.F.get(g.raw.get("parent"))
-        if p is None:
-            return None
-        for bb, i, st in p.stmts():
-            rv = st["rv"]
-            if rv["rv"] == "agg" and rv.get("agg") in ("closure", "coroutine", "coroutine_closure") and rv.get("def") == g.raw["id"]:
-                return p, bb, st
-        return None
+        s = self.closure_sites(g)
+        return s[0] if s else None
 
     def closure_receivers(self, p, st):
         """Calls in p that take the closure built by `st` as an argument: [(bb, term, arg index)]."""
@@ -278,9 +580,15 @@ class Flow:
         if key in seen or _depth > 12:
             return out
         seen.add(key)
-        sl = fn.slice(op, stop_at_calls=self.stop_calls)
+        sl = self.slice(fn, op)
         self._collect(fn, sl, out, control, seen, _depth)
         return out
+
+    def slice(self, fn, op, stop_at_calls=None):
+        stop = stop_at_calls or self.stop_calls
+        if self.precise:
+            return pslice(fn, op, stop_at_calls=stop)
+        return fn.slice(op, stop_at_calls=stop)
 
     def _collect(self, fn, sl, out, control, seen, depth):
         for c, cbb, ct in sl.callees:
@@ -330,6 +638,7 @@ class Flow:
             for bb, kind, node in fn.defs().get(l, []):
                 if not fn.blocks[bb]["cleanup"]:
                     bbs.add(bb)
+        bbs |= set(getattr(sl, "mut_blocks", ()))
         return bbs
 
     def _controllers(self, fn, bb):
@@ -343,29 +652,29 @@ class Flow:
         intra-procedural so that a sink's controlling predicates are those of its own function)."""
         out = Origins()
         if self.is_closure(fn):
-            site = self.closure_site(fn)
-            if site is None:
+            sites = self.closure_sites(fn)
+            if not sites:
                 out.roots.add((fn.id, i))
                 return out
-            p, bb, st = site
-            if i == 1:
-                k = None
-                for e in proj:
-                    if e.startswith("f"):
-                        k = int(e[1:].split(":")[0])
-                        break
-                ops = st["rv"]["ops"]
-                sel = [ops[k]] if (k is not None and k < len(ops)) else ops
-                for o in sel:
-                    out.update(self.origins(p, o, False, seen, depth + 1))
-            else:
-                recv = self.closure_receivers(p, st)
-                if not recv:
-                    out.roots.add((fn.id, i))
-                for cbb, t, k in recv:
-                    for j, a in enumerate(t["args"]):
-                        if j != k:
-                            out.update(self.origins(p, a, False, seen, depth + 1))
+            for p, bb, st in sites:
+                if i == 1:
+                    k = None
+                    for e in proj:
+                        if e.startswith("f"):
+                            k = int(e[1:].split(":")[0])
+                            break
+                    ops = st["rv"]["ops"]
+                    sel = [ops[k]] if (k is not None and k < len(ops)) else ops
+                    for o in sel:
+                        out.update(self.origins(p, o, False, seen, depth + 1))
+                else:
+                    recv = self.closure_receivers(p, st)
+                    if not recv:
+                        out.roots.add((fn.id, i))
+                    for cbb, t, k in recv:
+                        for j, a in enumerate(t["args"]):
+                            if j != k:
+                                out.update(self.origins(p, a, False, seen, depth + 1))
         else:
             if fn.raw["id"] in self.entries or (fn.raw["id"], i) in self.root_params:
                 out.roots.add((fn.id, i))
@@ -531,7 +840,7 @@ class ChainOps:
         if key in seen or depth > 10:
             return out
         seen.add(key)
-        sl = fn.slice(op)
+        sl = self.flow.slice(fn, op)
         for a in sl.atoms:
             if a[0] in ("binop", "unop"):
                 out.add((a[0], a[1]))
@@ -549,7 +858,7 @@ class ChainOps:
         # comparisons that decide whether a definition on the slice executes
         for bb in self.flow.def_blocks(fn, sl):
             for sb in self.flow._controllers(fn, bb):
-                d = fn.slice(fn.blocks[sb]["term"]["discr"])
+                d = self.flow.slice(fn, fn.blocks[sb]["term"]["discr"])
                 for a in d.atoms:
                     if a[0] in ("binop", "unop"):
                         out.add(("ctrl-" + a[0], a[1]))
@@ -562,25 +871,22 @@ class ChainOps:
         out = set()
         fl = self.flow
         if fl.is_closure(fn):
-            site = fl.closure_site(fn)
-            if site is None:
-                return out
-            p, bb, st = site
-            if i == 1:
-                k = None
-                for e in proj:
-                    if e.startswith("f"):
-                        k = int(e[1:].split(":")[0])
-                        break
-                ops = st["rv"]["ops"]
-                for o in ([ops[k]] if (k is not None and k < len(ops)) else ops):
-                    out |= self._ops(p, o, seen, depth + 1, True)
-            else:
-                for cbb, t, k in fl.closure_receivers(p, st):
-                    out.add(("call", t.get("callee") or "<indirect>"))
-                    for j, a in enumerate(t["args"]):
-                        if j != k:
-                            out |= self._ops(p, a, seen, depth + 1, True)
+            for p, bb, st in fl.closure_sites(fn):
+                if i == 1:
+                    k = None
+                    for e in proj:
+                        if e.startswith("f"):
+                            k = int(e[1:].split(":")[0])
+                            break
+                    ops = st["rv"]["ops"]
+                    for o in ([ops[k]] if (k is not None and k < len(ops)) else ops):
+                        out |= self._ops(p, o, seen, depth + 1, True)
+                else:
+                    for cbb, t, k in fl.closure_receivers(p, st):
+                        out.add(("call", t.get("callee") or "<indirect>"))
+                        for j, a in enumerate(t["args"]):
+                            if j != k:
+                                out |= self._ops(p, a, seen, depth + 1, True)
         else:
             if fn.raw["id"] in fl.entries:
                 return out
